@@ -233,6 +233,16 @@ def _isi_rules(ctx) -> List[Ob]:
     return out
 
 
+def _carry(obs, wanted: set, new_rule: str, premise_rules: tuple = ()) -> List[Ob]:
+    """obligations of the rules in `wanted`, re-labelled; undecided premises of those rules (e.g. 'merge idiom
+    established') are carried along, so that a kernel whose shape is not recognised cannot pass silently"""
+    out = []
+    for o in obs:
+        if o.rule in wanted or (o.status == 'inconclusive' and o.rule in premise_rules):
+            out.append(Ob(new_rule, o.title, o.status, o.where, o.detail, o.key, o.construct, o.extra))
+    return out
+
+
 def _nonempty_aux(ctx, rule='R01.6') -> List[Ob]:
     """get_spikes_non_empty: an empty train is represented by exactly its two edges"""
     import ast as _ast
@@ -557,12 +567,13 @@ P('C08', 'other',
   [lambda c: c.get('units', lambda cc: r08_1_units(cc, 'R08.1')),
    lambda c: only_rules(lambda cc: RM.r15_4_threshold_definition(cc, 'R15.4', 'R08.2'), {'R08.2'})(c),
    lambda c: _mirror_kernels(c),
+   lambda c: _carry(_spike_rules(c), {'R02.4'}, 'R08.4', ('R02.3', 'R02.4')),
    lambda c: r03_5_limit_derivation(c, 'R08.3')],
   "R08.1 proof by typing: every backend routine (both copies, helpers typed from their call sites), the methods of the three function classes and "
   "isi_lengths.py type-check in the affine units system (Time = weight 1, Duration, Scalar); by lemma L6 a well-typed routine is invariant under "
   "t -> lambda t + c with durations scaled by lambda: scalar outputs unchanged, time outputs transformed, every branch decision unchanged - the whole "
   "first sentence of C08 over the reals; R08.2 the start-edge and end-edge rules of the ISI kernels, of the SPIKE auxiliary spikes and of isi_lengths are "
-  "images of each other under the reflection rho (computed on canonical terms); R08.3 the coincidence limit uses only t_end - t_start and 2 max_tau."
+  "images of each other under the reflection rho (computed on canonical terms); R08.4 (=R02.4) the SPIKE kernels use, at the start edge and when a train steps onto its last spike, the two interval rules that are each other's reflection (max(edge gap, neighbouring ISI) if N>1 else the edge gap); R08.3 the coincidence limit uses only t_end - t_start and 2 max_tau."
   + NOT_DECIDED + "reversal covariance of the scan as a whole, sign flip of the order profile under reversal, floating-point effects.",
   ["lemma L6 (typing implies invariance); input construction (SpikeTrain.__init__, generate_poisson_spikes) is outside the typed scope"],
   {'R08.1': 100, 'R08.2': 8, 'R08.3': 25})
@@ -734,8 +745,8 @@ P('C18', 'other',
    lambda c: _epilogue_trim(c, [k for f in (isi_family(c), spike_family(c)) if f for k in (f.py, f.pyx)], 'R18.5'),
    _unreachable_info,
    lambda c: _nonempty_aux(c, 'R18.4'),
-   lambda c: [Ob('R18.7', o.title, o.status, o.where, o.detail, o.key, o.construct, o.extra) for o in _isi_rules(c) if o.rule == 'R01.4'],
-   lambda c: [Ob('R18.7', o.title, o.status, o.where, o.detail, o.key, o.construct, o.extra) for o in _spike_rules(c) if o.rule == 'R02.5'],
+   lambda c: _carry(_isi_rules(c), {'R01.4'}, 'R18.7', ('R01.3', 'R01.4')),
+   lambda c: _carry(_spike_rules(c), {'R02.5', 'R02.4'}, 'R18.7', ('R02.3', 'R02.4', 'R02.5')),
    lambda c: [Ob('R18.7', o.title, o.status, o.where, o.detail, o.key, o.construct, o.extra)
               for o in RM.r15_4_threshold_definition(c, 'R15.4', 'R08.2') if o.rule == 'R15.4' and 'isi_lengths' in o.title]],
   "R18.1 every division by a pooled multiplicity or a spike count is dominated by a zero test on the same variable (all other divisors are "
